@@ -206,6 +206,8 @@ struct RunCfg<'a> {
     trace_cases: bool,
     want_digests: bool,
     stride: u64,
+    /// (class, substring of detail) of recorded known findings
+    known: Vec<(String, String)>,
 }
 
 /// Execute the given run indices in this process. Returns 1 at the first violation.
@@ -270,6 +272,14 @@ fn run_indices(rc_cfg: &RunCfg, indices: &[u64], stats: &mut Stats, deadline: Op
                 }
                 if rc_cfg.want_digests {
                     stats.digests.push((i, o.digest));
+                }
+            },
+            Err(v) if rc_cfg.known.iter().any(|(c, m)| c == &v.class && v.detail.contains(m.as_str())) => {
+                // a recorded known finding (KNOWN_FINDINGS.txt): count it and go on exploring, so that
+                // a different violation of the same property is still found and reported
+                stats.inc("known_finding_hits");
+                if stats.notes.len() < 64 {
+                    stats.notes.insert(format!("KNOWN-FINDING-HIT class={} {}", v.class, v.detail));
                 }
             },
             Err(v) => {
@@ -384,6 +394,35 @@ fn run_forked(rc_cfg: &RunCfg, indices: &[u64], chunk: usize, stats: &mut Stats,
     0
 }
 
+/// `known: property=<id> class=<class> match=<substring> :: <what fails>` lines of KNOWN_FINDINGS.txt
+fn load_known(path: Option<&String>) -> Vec<(String, String)> {
+    let mut out = Vec::new();
+    if let Some(p) = path {
+        if let Ok(text) = std::fs::read_to_string(p) {
+            for line in text.lines() {
+                let line = line.trim();
+                if let Some(body) = line.strip_prefix("known:") {
+                    let body = body.split("::").next().unwrap_or("");
+                    let mut class = String::new();
+                    let mut mat = String::new();
+                    for tok in body.split_whitespace() {
+                        if let Some(c) = tok.strip_prefix("class=") {
+                            class = c.to_string();
+                        }
+                        if let Some(m) = tok.strip_prefix("match=") {
+                            mat = m.to_string();
+                        }
+                    }
+                    if !class.is_empty() {
+                        out.push((class, mat));
+                    }
+                }
+            }
+        }
+    }
+    out
+}
+
 fn cmd_run(a: &Args) -> i32 {
     let ctx = Ctx {
         prop: a.get("prop", "C13"),
@@ -409,6 +448,7 @@ fn cmd_run(a: &Args) -> i32 {
         trace_cases: a.kv.contains_key("trace-cases"),
         want_digests: a.kv.contains_key("digests"),
         stride,
+        known: load_known(a.kv.get("known-file")),
     };
     let mut indices = Vec::new();
     let mut i = from + ((offset + stride - (from % stride)) % stride);
